@@ -11,14 +11,19 @@
    never an abort — every back-patch hits an instruction emitted before, every
    operand selector exists (CompileProofs.v, CompileLoops.v: a Hoare logic over
    the compiler monad, the five list-shaped loops by their own inductions).
-   That the trees of a run have this shape is evaluated on every resolved tree
-   of the run (chk_wfb).  NOT proved: that the compiled code keeps the VM away
+   And no input text reaches a panic of the compiler model: every tree the
+   grammar model returns has the parser's shape, the resolver model keeps it
+   (ParserShape.v), hence for every input, every tree parsed from it and every
+   compiler state both entry points return code or a refusal
+   ([C05_no_input_makes_the_compiler_panic]).  That the real parser and resolver
+   agree with the models is compared on every run; the shape is also evaluated
+   on every resolved tree of the run (chk_wfb).  NOT proved: that the compiled code keeps the VM away
    from its internal faults; the check decides that on adversarial generated
    programs run on the real code (a recovered Go panic or a hang is a
    violation) and compares with the VM model, in which every internal fault of
    vm.go / memory.go / bytecoder.go is the Abort outcome. *)
 Require Import Calc.Base Calc.Bytecode Calc.Value Calc.FloatText Calc.Ast Calc.Resolve Calc.Compile
-        Calc.VM Calc.Session Calc.ValueProofs Calc.CompileWf Calc.CompileProofs Calc.CompileLoops.
+        Calc.VM Calc.Session Calc.ValueProofs Calc.CompileWf Calc.CompileProofs Calc.CompileLoops Calc.Lexer Calc.Grammar Calc.ParserShape.
 Open Scope Z_scope.
 
 Theorem C05_operators_total : forall c a b i j,
@@ -74,3 +79,12 @@ Example C05_wfb_nonvacuous :
           NWhile (NBool true) (NReturn (NIndexFromTo (NStr "abc") (NInt 0) (NUn "#" (NStr "abc"))))]) 3);
         NCall (NName "f") [NInt 2]]) = true.
 Proof. reflexivity. Qed.
+
+(* ---- from the text to the compiler ---- *)
+Theorem C05_no_input_makes_the_compiler_panic : forall input l,
+  parse_model input = PTrees l ->
+  forall t, In t l -> forall r, strewrite t = Some r ->
+  forall s, 0 <= ncs s ->
+    (forall w, ByteCode r s <> CompAbort w) /\ (forall w, ByteCodeNoStck r s <> CompAbort w).
+Proof. exact no_input_makes_the_compiler_panic. Qed.
+Print Assumptions C05_no_input_makes_the_compiler_panic.
